@@ -49,6 +49,7 @@ package preprocessor
 //@ func (*preprocessor).worker
 //@   property C17
 //@   attr hooked @C01 inputCh,outputCh
+//@   attr cancellable @C03 inputCh,outputCh
 //@   local nIn int = 0
 //@   local nOut int = 0
 //@   local inHand *models.Item = nil
